@@ -52,7 +52,7 @@ pub struct Case {
     pub same_values: bool,
 }
 
-fn key_name(style: u8, i: usize) -> SimKey {
+pub fn key_name(style: u8, i: usize) -> SimKey {
     SimKey(match style {
         1 => format!("obj.{i}"),
         2 => format!("versions-1.15.{i}"),
@@ -290,7 +290,7 @@ impl Scenario for Cache {
         "exploration"
     }
     fn rule(&self) -> &'static str {
-        "Seeded histories (3-40 ops) of put/put_with_ttl/get/contains/remove/clear/size/stats/advance(+recreate for disk) on the real MemoryCache (5 eviction policies, max_entries 1..1000, max_memory_bytes None/1..1000, values 0..2x the byte limit, key population > capacity; on disk one run in 150 with one value of 16 MiB -1/+0/+1/+4096 bytes (the large-file read path); keys spelled k<i>, or in one run in three obj.<i> / versions-1.15.<i> / k<i> + k<i>.idx - equal up to their last dot, or one a prefix of the other; in one run in eight all values of one length are the same bytes whichever key they are put under) and the real DiskCache (with/without sub-directories, with/without background tasks) under the virtual clock. Every read is judged against a map-with-expiry model ('latest value or nothing', nothing only if expired/removed/possibly evicted); bounds after every op; reported size/usage vs. what a probe of every key retrieves at the end; disk: a new instance must serve until the TTL ends and not after. Non-trivial = >= 2 state-changing ops; distinct = hash of (config, ops, observed results)."
+        "Seeded histories (3-40 ops) of put/put_with_ttl/get/contains/remove/clear/size/stats/advance(+recreate for disk) on the real MemoryCache (5 eviction policies, max_entries 1..23 / 1000 / usize::MAX, default TTL none / 1 h / 50 ms / 0, max_memory_bytes None/1..1000, values 0..2x the byte limit, key population > capacity; on disk one run in 150 with one value of 16 MiB -1/+0/+1/+4096 bytes (the large-file read path); keys spelled k<i>, or in one run in three obj.<i> / versions-1.15.<i> / k<i> + k<i>.idx - equal up to their last dot, or one a prefix of the other; in one run in eight all values of one length are the same bytes whichever key they are put under) and the real DiskCache (with/without sub-directories, with/without background tasks) under the virtual clock. Every read is judged against a map-with-expiry model ('latest value or nothing', nothing only if expired/removed/possibly evicted); bounds after every op; reported size/usage vs. what a probe of every key retrieves at the end; disk: a new instance must serve until the TTL ends and not after. Non-trivial = >= 2 state-changing ops; distinct = hash of (config, ops, observed results)."
     }
     fn assumptions(&self) -> Vec<&'static str> {
         vec![
@@ -319,7 +319,7 @@ impl Scenario for Cache {
 
     fn generate(&self, rng: &mut Rng, _tier: Tier) -> Case {
         let disk = rng.chance(35, 100);
-        let ttl_choices = [None, None, Some(3_600_000u64), Some(50)];
+        let ttl_choices = [None, None, None, None, Some(3_600_000u64), Some(3_600_000u64), Some(50), Some(50), Some(0)];
         let sut = if disk {
             SutCfg::Disk {
                 subdir_levels: *rng.pick(&[0usize, 0, 1, 2]),
@@ -330,7 +330,8 @@ impl Scenario for Cache {
         } else {
             SutCfg::Memory {
                 policy: (*rng.pick(&["Lru", "Lfu", "Fifo", "Random", "Ttl"])).to_string(),
-                max_entries: *rng.pick(&[1usize, 2, 3, 5, 10, 1000, 1000, usize::MAX]),
+                // (from 11 entries up one eviction round removes more than one entry: the target is 90 % of the limit)
+                max_entries: *rng.pick(&[1usize, 2, 3, 5, 10, 11, 16, 20, 23, 1000, 1000, usize::MAX]),
                 max_bytes: *rng.pick(&[None, None, None, Some(1usize), Some(10), Some(100), Some(1000), Some(100_000)]),
                 default_ttl_ms: *rng.pick(&ttl_choices),
                 cleanup: rng.chance(15, 100),
@@ -340,7 +341,7 @@ impl Scenario for Cache {
             SutCfg::Memory { max_entries, max_bytes, .. } => ((*max_entries).min(1000), max_bytes.unwrap_or(200)),
             SutCfg::Disk { max_files, .. } => ((*max_files).min(6), 200),
         };
-        let nkeys = ((cap as f64 * (1.5 + rng.below(16) as f64 / 10.0)) as usize + 1).clamp(2, 24);
+        let nkeys = ((cap as f64 * (1.5 + rng.below(16) as f64 / 10.0)) as usize + 1).clamp(2, 40);
         let nops = match rng.below(100) {
             0..=14 => rng.range(2, 4),
             15..=79 => rng.range(5, 14),
